@@ -53,7 +53,8 @@ def step (_ : Unit) (ws : List String) : Unit × String :=
   | ["spec", idem, a, nh, nreq, first, result] =>
       match a.toNat?, nh.toNat?, nreq.toNat? with
       | some sa, some hosts, some n =>
-        if n > maxExecutions (idem == "1") sa then s!"reject:too-many-executions:{n}"
+        if result == "hang" then "reject:no-result"
+        else if n > maxExecutions (idem == "1") sa then s!"reject:too-many-executions:{n}"
         else if n > hosts then s!"reject:more-requests-than-hosts:{n}"
         else if result == "noconn" then
           -- an execution that found the shared host iterator exhausted may complete first
